@@ -57,7 +57,7 @@ def gen_cases(tier, seed):
     batch = []
     for i in range(nrand):
         L = int(rng.integers(4, 9))
-        batch.append({"init": INITS[i % 3], "ops": [int(v) for v in rng.integers(0, len(OPS), L)], "cell": CELLS[i % len(CELLS)]})
+        batch.append({"init": INITS[i % 3], "ops": [int(v) for v in rng.integers(0, len(OPS), L)], "cell": CELLS[(i // 3 + i) % len(CELLS)]})  # (i//3 + i): every cell meets every initial NAC state
         if len(batch) == 10:
             cases.append({"kind": "histories", "batch": batch, "seed": int(rng.integers(10 ** 6)), "_cost": 30})
             batch = []
